@@ -8,10 +8,13 @@
 #![allow(dead_code)]
 
 mod cbor;
+mod dispatch;
+mod mock;
 mod mon;
 mod mutate;
 mod project;
 mod report;
+mod resp;
 mod rng;
 mod schema;
 mod util;
@@ -35,12 +38,24 @@ fn build_name() -> &'static str {
 fn dispatch(rep: &mut Rep) -> bool {
     match rep.prop.as_str() {
         "C01" => mon::c01::run(rep),
+        "C02" => mon::c02::run(rep),
+        "C03" => mon::c03::run(rep),
         "C04" => mon::c04::run(rep),
         "C05" => mon::c05::run(rep),
         "C06" => mon::c06::run(rep),
+        "C07" => mon::c07::run(rep),
+        "C08" => mon::c08::run(rep),
+        "C09" => mon::c09::run(rep),
+        "C10" => mon::c10::run(rep),
+        "C11" => mon::c11::run(rep),
         "C12" => mon::c12::run(rep),
         "C13" => mon::c13::run(rep),
         "C14" => mon::c14::run(rep),
+        "C15" => mon::c15::run(rep),
+        "C16" => mon::c16::run(rep),
+        "C17" => mon::c17::run(rep),
+        "C18" => mon::c18::run(rep),
+        "C19" => mon::c19::run(rep),
         _ => return false,
     }
     true
